@@ -165,7 +165,7 @@ def run(ctx):
   ctx.model('MC_Geometry', 'MC_Geometry.cfg')
   rng = np.random.default_rng(ctx.seed + 19)
   rs = []
-  n = 3 if ctx.quick else 80
+  n = 3 if ctx.quick else 250
   for rel, names in RELS.items():
     for name in names:
       rs.append(dict(est=name, rel=rel, n=n, seed=int(rng.integers(1 << 30))))
